@@ -1747,3 +1747,70 @@ fn normalize_fractional_3() {
     kani::cover!(total8 > 8, "total above one");
     core::mem::forget(scs);
 }
+
+/// C03: Spectrum::project itself (not only Projection::from_shapes) rejects targets of another
+/// dimensionality, zero lengths and larger axes, and accepts the others.  Targets are concrete per
+/// harness (they size the output).
+fn project_target_case<const K: usize>(target: [usize; K], expect_ok: bool) {
+    let d: [u8; 6] = small::<6>(4);
+    let scs = scs_of([3, 2], &d);
+    let mut tv = Vec::with_capacity(K);
+    let mut j = 0;
+    while j < K {
+        tv.push(target[j]);
+        j += 1;
+    }
+    let r = scs.project(Shape(tv));
+    assert!(r.is_ok() == expect_ok);
+    if let Ok(p) = &r {
+        assert!(shape_is(p, &target));
+    }
+    kani::cover!(true, "reached end");
+    core::mem::forget(r);
+    core::mem::forget(scs);
+}
+
+macro_rules! project_target_h {
+    ($name:ident, $k:literal, $target:expr, $ok:literal) => {
+        #[kani::proof]
+        #[kani::unwind(12)]
+        #[kani::stub(crate::utils::hypergeometric_pmf, h_stub)]
+        fn $name() {
+            project_target_case::<$k>($target, $ok)
+        }
+    };
+}
+
+// @harness props=C03,C17 tier=quick group=f64 bounds=source=[3,2],target=[3],cells=0..3 timeout=900
+project_target_h!(project_target_rank1_prefix, 1, [3], false);
+
+// @harness props=C03,C17 tier=thorough group=f64 bounds=source=[3,2],target=[2],cells=0..3 timeout=900
+project_target_h!(project_target_rank1_small, 1, [2], false);
+
+// @harness props=C03,C17 tier=quick group=f64 bounds=source=[3,2],target=[3,2,1],cells=0..3 timeout=900
+project_target_h!(project_target_rank3_prefix, 3, [3, 2, 1], false);
+
+// @harness props=C03,C17 tier=thorough group=f64 bounds=source=[3,2],target=[2,2,2],cells=0..3 timeout=900
+project_target_h!(project_target_rank3_other, 3, [2, 2, 2], false);
+
+// @harness props=C03,C17 tier=quick group=f64 bounds=source=[3,2],target=[2,3],cells=0..3 timeout=900
+project_target_h!(project_target_later_axis_larger, 2, [2, 3], false);
+
+// @harness props=C03,C17 tier=quick group=f64 bounds=source=[3,2],target=[4,1],cells=0..3 timeout=900
+project_target_h!(project_target_first_axis_larger, 2, [4, 1], false);
+
+// @harness props=C03,C17 tier=quick group=f64 bounds=source=[3,2],target=[0,2],cells=0..3 timeout=900
+project_target_h!(project_target_zero_first, 2, [0, 2], false);
+
+// @harness props=C03,C17 tier=thorough group=f64 bounds=source=[3,2],target=[3,0],cells=0..3 timeout=900
+project_target_h!(project_target_zero_last, 2, [3, 0], false);
+
+// @harness props=C03,C17 tier=quick group=f64 bounds=source=[3,2],target=[3,2],cells=0..3 timeout=900
+project_target_h!(project_target_same, 2, [3, 2], true);
+
+// @harness props=C03,C17 tier=quick group=f64 bounds=source=[3,2],target=[1,1],cells=0..3 timeout=900
+project_target_h!(project_target_smaller, 2, [1, 1], true);
+
+// @harness props=C03,C17 tier=thorough group=f64 bounds=source=[3,2],target=[],cells=0..3 timeout=900
+project_target_h!(project_target_empty, 0, [], false);
+
